@@ -82,14 +82,19 @@ func vmFileTruncate(f *os.File, size int64) error {
 
 func vmFileSeek(f *os.File, off int64, whence int) (int64, error) {
 	vmFile.seeks++
+	np := vmFile.pos
 	switch whence {
 	case 0:
-		vmFile.pos = int(off)
+		np = int(off)
 	case 1:
-		vmFile.pos += int(off)
+		np += int(off)
 	case 2:
-		vmFile.pos = len(vmFile.data) + int(off)
+		np = len(vmFile.data) + int(off)
 	}
+	if np < 0 {
+		return 0, os.ErrInvalid // lseek: EINVAL for a negative resulting offset
+	}
+	vmFile.pos = np
 	return int64(vmFile.pos), nil
 }
 
